@@ -4,14 +4,15 @@
     what the REAL library holds for it: the content dictionary [ext._content] rendered as [jv] WITH its key order,
     the outcome of [to_json()] and its text.
 
-    [check]:
-      * [to_content qtok_dec e] and the observed content have the same top-level keys IN THE SAME ORDER; the header
-        fields (shape, affine, reorient transform, slice dim, version) are equal; every base dictionary has the same
-        sub-dictionaries in the same order; the class dictionaries are equal as UNORDERED maps (distinct keys);
-      * [Content.check_valid] of the observed content = the observed outcome of to_json (accept / exception class),
-        and the model content gets the same verdict;
-      * when to_json succeeded, [Json.print] of the observed content is the observed text, and [Json.parse] of the
-        text is the observed content;
+    [check] (nothing here depends on the ORDER of the members of the observed dictionaries: no property states
+    the order in which make_empty fills the content, only that a round trip keeps whatever order there is):
+      * [to_content qtok_dec e] and the observed content are equal AS MAPS: the same top-level members; the header
+        fields (shape, affine, reorient transform, slice dim, version) equal; every base dictionary has the same
+        sub-dictionaries; the class dictionaries are equal as maps (distinct keys);
+      * [Content.check_valid] accepts the observed content iff to_json succeeded (any exception = refusal), and the
+        model content gets the same verdict;
+      * when to_json succeeded, [Json.parse] of the text IS the observed content (members in the same order: the
+        round trip of C09 keeps key order); the text itself (indentation, separators) is not compared;
       * [of_content tokq_dec] of the observed content is the case's extension as an unordered map. *)
 From Coq Require Import List Bool Arith NArith ZArith QArith.
 From DV Require Import Common.Res Common.Str Common.Jv.
@@ -33,13 +34,16 @@ Definition dict_eqb_unordered (a b : list (str * jv)) : bool :=
   nodup_keys (map fst a) && nodup_keys (map fst b) && (length a =? length b)
   && forallb (fun kv => match jassoc (fst kv) b with Some v => jv_eqb (snd kv) v | None => false end) a.
 
-Definition strs_eqb (a b : list str) : bool := list_eqb str_eqb a b.
+(** two dictionaries with the same member names (as sets; names distinct) *)
+Definition same_names (x y : list (str * jv)) : bool :=
+  nodup_keys (map fst x) && nodup_keys (map fst y) && (length x =? length y)
+  && forallb (fun kv => match jassoc (fst kv) y with Some _ => true | None => false end) x.
 
-(** a base dictionary: same sub-dictionary names in the same order, class dictionaries equal unordered *)
+(** a base dictionary: the same sub-dictionaries, class dictionaries equal as maps *)
 Definition base_eqb (a b : jv) : bool :=
   match a, b with
   | JObj x, JObj y =>
-      strs_eqb (map fst x) (map fst y)
+      same_names x y
       && forallb (fun kv => match snd kv, jassoc (fst kv) y with
                             | JObj d1, Some (JObj d2) => dict_eqb_unordered d1 d2
                             | _, _ => false
@@ -53,7 +57,7 @@ Definition is_base_name (k : str) : bool :=
 Definition content_eqb (model observed : jv) : bool :=
   match model, observed with
   | JObj x, JObj y =>
-      strs_eqb (map fst x) (map fst y)
+      same_names x y
       && forallb (fun kv => match jassoc (fst kv) y with
                             | Some v => if is_base_name (fst kv) then base_eqb (snd kv) v else jv_eqb (snd kv) v
                             | None => false
@@ -61,7 +65,8 @@ Definition content_eqb (model observed : jv) : bool :=
   | _, _ => false
   end.
 
-Definition res_unit_eqb (a b : res unit) : bool := res_eqb (fun _ _ => true) a b.
+(** accepted / refused (the exception class of a refusal is not compared: the property says "can be serialised") *)
+Definition res_unit_eqb (a b : res unit) : bool := Bool.eqb (is_ok a) (is_ok b).
 
 Definition check (c : case) : bool :=
   let m := to_content qtok_dec (c_ext c) in
@@ -69,8 +74,7 @@ Definition check (c : case) : bool :=
   && res_unit_eqb (CM.check_valid (c_content c)) (c_json c)
   && res_unit_eqb (CM.check_valid m) (c_json c)
   && match c_json c with
-     | Ok _ => str_eqb (JM.print (c_content c)) (c_text c)
-               && match JM.parse (c_text c) with Some j => jv_eqb j (c_content c) | None => false end
+     | Ok _ => match JM.parse (c_text c) with Some j => jv_eqb j (c_content c) | None => false end
      | Err _ => true
      end
   && match of_content tokq_dec (c_content c) with
@@ -81,5 +85,5 @@ Definition check (c : case) : bool :=
 (** what the model says, for the replay file *)
 Definition show (c : case) :=
   (to_content qtok_dec (c_ext c), CM.check_valid (c_content c), CM.check_valid (to_content qtok_dec (c_ext c)),
-   str_eqb (JM.print (c_content c)) (c_text c),
+   match JM.parse (c_text c) with Some j => Some (jv_eqb j (c_content c)) | None => None end,
    match of_content tokq_dec (c_content c) with Some e' => Some (ext_eqb (c_ext c) e') | None => None end).
